@@ -544,18 +544,37 @@ theorem exitEvents_cov {g : Geom} (hg : g.Valid) (b i : Nat) (p : Peer) :
   simp [covL_mapDrop hg, outstanding_def, cntR, cov]
   omega
 
-theorem handlePeerEv_loc {g : Geom} (hg : g.Valid) (b : Nat) (p : Peer) (e : PeerEv) (slow : Bool) :
-    (handlePeerEv g p e slow).1.outstanding b + covL g b (handlePeerEv g p e slow).2.1
+/-- (a PeerRequest reaches a peer only after its PeerMetadataComplete: invariant `MInv`) -/
+theorem handlePeerEv_loc {g : Geom} (hg : g.Valid) (b k : Nat) (p : Peer) (e : PeerEv) (slow : Bool)
+    (hreq : ∀ cs, e = .request cs → p.hasInfo = true) :
+    (handlePeerEv g k p e slow).1.outstanding b + covL g b (handlePeerEv g k p e slow).2.1
       = p.outstanding b + cnt b (reqChunks e) := by
   unfold handlePeerEv
   cases e with
   | request cs =>
-    simp only [reqChunks]
+    have := hreq cs rfl
+    simp only [reqChunks, this, Bool.not_true, Bool.false_eq_true, if_false]
     rw [maybeRequest_loc hg, enqueueAll_loc hg]; simp
-  | cancel c => simp only [reqChunks]; rw [cancelChunk_loc hg]; simp
-  | cancelPiece idx => simp only [reqChunks]; rw [cancelPieceLoop_loc hg]; simp
+  | cancel c =>
+    simp only [reqChunks]
+    split
+    · simp
+    · rw [cancelChunk_loc hg]; simp
+  | cancelPiece idx =>
+    simp only [reqChunks]
+    split
+    · simp
+    · rw [cancelPieceLoop_loc hg]; simp
   | done => simp [reqChunks]
-  | metadata => simp [reqChunks]
+  | metadata =>
+    simp only [reqChunks]
+    split
+    · simp
+    · split
+      · split
+        · simp [outstanding_def]
+        · simp [outstanding_def, cov]
+      · split <;> simp [outstanding_def]
 
 end Storrent.Sched
 
@@ -643,8 +662,11 @@ theorem handleMsg_loc {g : Geom} (hg : g.Valid) (b : Nat) (pieces : List PieceSt
     simp only [handleMsg]
     split
     · simp
-    · simp [outstanding_def, cov, retract]
-      split <;> simp [cov]
+    · split
+      · simp [outstanding_def, cov, retract]
+        split <;> simp [cov]
+      · simp [outstanding_def, retract]
+        split <;> simp [cov]
   | haveNone =>
     simp only [handleMsg]
     split
@@ -655,7 +677,9 @@ theorem handleMsg_loc {g : Geom} (hg : g.Valid) (b : Nat) (pieces : List PieceSt
     simp only [handleMsg]
     split
     · simp
-    · split <;> simp [outstanding_def, cov]
+    · split
+      · simp [outstanding_def]
+      · split <;> simp [outstanding_def, cov]
   | allowedFast x =>
     simp only [handleMsg]
     split
@@ -694,7 +718,8 @@ theorem handleMsg_loc {g : Geom} (hg : g.Valid) (b : Nat) (pieces : List PieceSt
               · have h0 := hOK _ h
                 have := hdel (toChunk g idx begin)
                 simp at this; omega
-            have := cov_pieceData hg pc idx begin len (by omega) hc hcond.1 hcond.2
+            have hidx' : idx < g.npieces := by simp at hidx; omega
+            have := cov_pieceData hg pc idx begin len hidx' hc hcond.1 hcond.2
             have hd := hdel b
             simp [cov, this]; omega
           · rw [maybeRequest_loc hg, covL_drop hg]
@@ -1379,7 +1404,73 @@ theorem lt_of_get {α : Type} (l : List α) (i : Nat) (x : α) (h : l[i]? = some
   · exact h1
   · rw [List.getElem?_eq_none h1] at h; cases h
 
-theorem step_inv (s : State) (op : Op) (hI : Inv s) : Inv (step s op).1 := by
+/-! ### a PeerRequest is consumed only by a peer that knows the metadata -/
+
+/-- no PeerRequest precedes the PeerMetadataComplete in the command channel of a peer without Info -/
+def safeQ : Bool → List PeerEv → Prop
+  | true, _ => True
+  | false, [] => True
+  | false, e :: rest =>
+    match e with
+    | .metadata => True
+    | .request _ => False
+    | _ => safeQ false rest
+
+def metaReady (h : Bool) (q : List PeerEv) : Prop := h = true ∨ PeerEv.metadata ∈ q
+
+structure MInv (s : State) : Prop where
+  safe : ∀ p ∈ s.peers, p.alive = true → safeQ p.hasInfo p.evq
+  ready : s.hasMeta = true → ∀ p ∈ s.peers, p.alive = true → p.present = true → metaReady p.hasInfo p.evq
+
+theorem safeQ_request (h : Bool) (cs : List Nat) (rest : List PeerEv) (hs : safeQ h (.request cs :: rest)) :
+    h = true := by
+  cases h with
+  | true => rfl
+  | false => exact absurd hs (by simp [safeQ])
+
+theorem castMeta_same (g : Geom) : ∀ (l : List Peer), SamePeers g l (castMeta l) := by
+  intro l
+  induction l with
+  | nil => exact SamePeers.refl g []
+  | cons p ps ih =>
+    obtain ⟨h1, h2⟩ := ih
+    have e : castMeta (p :: ps) = (if p.present && p.alive then { p with evq := p.evq ++ [.metadata] } else p)
+        :: castMeta ps := rfl
+    rw [e]
+    refine ⟨fun b => ?_, fun p' hp' => ?_⟩
+    · simp only [sumL_cons, h1 b]
+      split
+      · simp [peerOwed_def, reqChunks, outstanding_def]
+      · rfl
+    · rcases List.mem_cons.mp hp' with rfl | hp'
+      · refine ⟨p, by simp, ?_⟩
+        split
+        · exact ⟨rfl, rfl, rfl, fun b => by simp [reqChunks]⟩
+        · exact ⟨rfl, rfl, rfl, fun _ => rfl⟩
+      · obtain ⟨q, hq, r⟩ := h2 p' hp'
+        exact ⟨q, by simp [hq], r⟩
+
+theorem inv_samePeers (s : State) (hI : Inv s) (prs : List Peer) (sp : SamePeers s.g s.peers prs) (m : Bool) :
+    Inv { s with hasMeta := m, peers := prs } := by
+  obtain ⟨hW, hC⟩ := hI
+  refine ⟨⟨hW.valid, hW.len, hW.plen, ?_, hW.writersOK, ?_⟩, ?_⟩
+  · intro p' hp' c hc
+    obtain ⟨p, hp, a1, a2, _, a4⟩ := sp.2 p' hp'
+    have := hW.chunksOK p hp c hc
+    simp only [outstanding_def] at this ⊢
+    rw [a1, a2, a4 c]; exact this
+  · intro p' hp' ha
+    obtain ⟨p, hp, a1, a2, a3, _⟩ := sp.2 p' hp'
+    rw [a1, a2]; exact hW.deadOK p hp (by rw [← a3]; exact ha)
+  · intro hp hs b hbb
+    have h1 := hC hp hs b hbb
+    have h4 : sumL (peerOwed s.g b) prs = sumL (peerOwed s.g b) s.peers := sp.1 b
+    show getN s.inFlight b = sumL (peerOwed s.g b) prs + covL s.g b s.tEvent
+        + sumL (fun w => cnt b (w.reserved s.g)) s.writers
+    unfold owed at h1
+    omega
+
+theorem step_inv (s : State) (op : Op) (hI : Inv s) (hM : MInv s) : Inv (step s op).1 := by
   have hW := hI.1
   have hg := hW.valid
   unfold step
@@ -1401,7 +1492,7 @@ theorem step_inv (s : State) (op : Op) (hI : Inv s) : Inv (step s op).1 := by
             · exact hI
             · split
               · exact hI
-              · exact inv_request s hI i p hp cs (by simpa using hcs)
+              · exact inv_request s hI i p hp cs (by simp at hcs ⊢; exact hcs.2)
     | push i e =>
       simp only []
       split
@@ -1434,10 +1525,15 @@ theorem step_inv (s : State) (op : Op) (hI : Inv s) : Inv (step s op).1 := by
         · exact hI
         · split
           · exact hI
-          · rename_i e rest he
+          · rename_i ha _ e rest he
+            have hreq : ∀ cs, e = .request cs → ({ p with evq := rest } : Peer).hasInfo = true := by
+              intro cs hcs
+              have := hM.safe p (mem_of_get _ _ _ hp) (by simpa using ha)
+              rw [he, hcs] at this
+              exact safeQ_request _ cs rest this
             refine inv_commitPeer s hI i p hp rest true _ _ s.pieces ?_ (by simp) hW.plen
             intro b
-            have := handlePeerEv_loc hg b { p with evq := rest } e slow
+            have := handlePeerEv_loc hg b i { p with evq := rest } e slow hreq
             have h2 : ({ p with evq := rest } : Peer).outstanding b = p.outstanding b := rfl
             rw [h2] at this
             rw [he]; simp only [reqOwed_cons]; omega
@@ -1571,7 +1667,11 @@ theorem step_inv (s : State) (op : Op) (hI : Inv s) : Inv (step s op).1 := by
           · exact inv_panicked s hI
           · rename_i hchk
             obtain ⟨hW, hC⟩ := hI
-            have hidx : idx < s.g.npieces := by rw [← hW.plen]; exact lt_of_get _ _ _ hpc
+            have hpc' : s.pieces[idx]? = some pc := by
+              split at hpc
+              · exact hpc
+              · cases hpc
+            have hidx : idx < s.g.npieces := by rw [← hW.plen]; exact lt_of_get _ _ _ hpc'
             have h0 : o % 16384 = 0 := by
               unfold CS at hchk; omega
             have hpl : o + l ≤ s.g.pieceLength idx := by omega
@@ -1665,6 +1765,13 @@ theorem step_inv (s : State) (op : Op) (hI : Inv s) : Inv (step s op).1 := by
       · split
         · exact inv_flags s hI s.blocked _ (length_pieces_setN s hW _ _)
         · exact hI
+    | metaComplete =>
+      simp only []
+      split
+      · exact hI
+      · split
+        · exact inv_flags s hI true s.pieces hW.plen
+        · exact inv_samePeers s hI _ (castMeta_same s.g s.peers) true
 
 end Storrent.Sched
 
@@ -1687,10 +1794,7 @@ theorem init_inv (g : Geom) (hg : g.Valid) (tcap : Nat) : Inv (init g tcap) := b
         | succ b => simp [List.replicate_succ, getN, ih]
     simp [init, owed, this]
 
-theorem run_inv (ops : List Op) : ∀ (s : State), Inv s → Inv (run s ops) := by
-  induction ops with
-  | nil => intro s h; exact h
-  | cons op ops ih => intro s h; exact ih _ (step_inv s op h)
+/- (`run_inv` is in Lemmas/SchedMeta.lean, together with the invariant `MInv` it needs) -/
 
 end Storrent.Sched
 
@@ -1826,6 +1930,11 @@ theorem step_g (s : State) (op : Op) : (step s op).1.g = s.g := by
           · split <;> rfl
           · rfl
     | finalise idx =>
+      simp only []
+      split
+      · rfl
+      · split <;> rfl
+    | metaComplete =>
       simp only []
       split
       · rfl
